@@ -41,9 +41,14 @@ fn el<T: El>(v: f64) -> T {
 }
 
 /// data shape for a data dimension type: 4 knots (x), 3 (y for 2-D), then trailing axes
-fn data_shape(nd: usize, two_d: bool) -> Vec<usize> {
+fn data_shape(nd: usize, two_d: bool, variant: u8) -> Vec<usize> {
     let base: [usize; 7] = if two_d { [4, 3, 2, 1, 2, 1, 2] } else { [4, 2, 1, 2, 1, 2, 1] };
-    base[..nd].to_vec()
+    let mut s = base[..nd].to_vec();
+    // variant 2: a zero-length last trailing axis (no lane at all)
+    if variant == 2 && nd > if two_d { 2 } else { 1 } {
+        s[nd - 1] = 0;
+    }
+    s
 }
 
 fn mk_data<T: El>(shape: &[usize]) -> ArrayD<T> {
@@ -67,10 +72,16 @@ fn query_shape(dq: &str, m: usize) -> Vec<usize> {
     }
 }
 
-fn query_vals<T: El>(dq: &str, hi: f64, salt: usize) -> Vec<T> {
+fn query_vals<T: El>(dq: &str, hi: f64, salt: usize, variant: u8) -> Vec<T> {
     let all = [0.0, 1.0, hi, 2.0, 1.0, 0.0];
     let m = if dq == "Ix0" { 1 } else { 5 };
-    (0..m).map(|i| el::<T>(all[(i + salt) % all.len()].min(hi))).collect()
+    let mut v: Vec<T> = (0..m).map(|i| el::<T>(all[(i + salt) % all.len()].min(hi))).collect();
+    // variants 1, 2: one element (not the last one of a batch) is out of range
+    if variant >= 1 && salt == 0 {
+        let p = if m > 1 { 1 } else { 0 };
+        v[p] = el::<T>(-5.0);
+    }
+    v
 }
 
 fn to_bits<T: El, D: Dimension>(a: &Array<T, D>) -> Vec<u64> {
@@ -103,12 +114,12 @@ macro_rules! st2 {
 
 macro_rules! inst1 {
     ($name:ident, $d:ident, $dq:ident, $s:ident, $t:ty) => {
-        pub fn $name() -> Rec {
+        pub fn $name(variant: u8) -> Rec {
             let nd = nd_of(stringify!($d), false);
-            let shape = data_shape(nd, false);
+            let shape = data_shape(nd, false, variant);
             let data = mk_data::<$t>(&shape).into_dimensionality::<$d>().expect("data rank");
             let x: Array1<$t> = (0..shape[0]).map(|i| el::<$t>(i as f64)).collect();
-            let qv = query_vals::<$t>(stringify!($dq), (shape[0] - 1) as f64, 0);
+            let qv = query_vals::<$t>(stringify!($dq), (shape[0] - 1) as f64, 0, variant);
             let qs = query_shape(stringify!($dq), qv.len());
             let q = ArrayD::from_shape_vec(IxDyn(&qs), qv.clone()).unwrap().into_dimensionality::<$dq>().expect("query rank");
             let ip = Interp1DBuilder::new(st!($s, data)).x(st!($s, x)).build().expect("valid build");
@@ -148,14 +159,14 @@ macro_rules! inst1 {
 
 macro_rules! inst2 {
     ($name:ident, $d:ident, $dq:ident, $s:ident, $t:ty) => {
-        pub fn $name() -> Rec {
+        pub fn $name(variant: u8) -> Rec {
             let nd = nd_of(stringify!($d), true);
-            let shape = data_shape(nd, true);
+            let shape = data_shape(nd, true, variant);
             let data = mk_data::<$t>(&shape).into_dimensionality::<$d>().expect("data rank");
             let x: Array1<$t> = (0..shape[0]).map(|i| el::<$t>(i as f64)).collect();
             let y: Array1<$t> = (0..shape[1]).map(|i| el::<$t>(i as f64 * 2.0)).collect();
-            let qxv = query_vals::<$t>(stringify!($dq), (shape[0] - 1) as f64, 0);
-            let qyv = query_vals::<$t>(stringify!($dq), (shape[1] - 1) as f64 * 2.0, 1);
+            let qxv = query_vals::<$t>(stringify!($dq), (shape[0] - 1) as f64, 0, variant);
+            let qyv = query_vals::<$t>(stringify!($dq), (shape[1] - 1) as f64 * 2.0, 1, variant);
             let qs = query_shape(stringify!($dq), qxv.len());
             let qx = ArrayD::from_shape_vec(IxDyn(&qs), qxv.clone()).unwrap().into_dimensionality::<$dq>().expect("query rank");
             let qy = ArrayD::from_shape_vec(IxDyn(&qs), qyv.clone()).unwrap().into_dimensionality::<$dq>().expect("query rank");
@@ -221,9 +232,12 @@ include!("table.rs");
 fn body(ctx: &Ctx) -> (Summary, Meta) {
     let jobs: Vec<usize> = (0..TABLE.len()).collect();
     let sum = run_jobs(ctx, "instantiations", &jobs, |&i| TABLE[i].0.to_string(), |&i| {
-        let (name, kind, d, dq, s, t, f) = TABLE[i];
+        let (name0, kind, d, dq, s, t, f) = TABLE[i];
         let mut out = JobOut::default();
-        let r = f();
+      for variant in 0u8..3 {
+        let name = format!("{name0}{}", ["", ":one-element-out-of-range", ":zero-lane-data+out-of-range"][variant as usize]);
+        let name = name.as_str();
+        let r = f(variant);
         out.evals += 1;
         out.states += 1;
         out.transitions += 4;
@@ -255,6 +269,9 @@ fn body(ctx: &Ctx) -> (Summary, Meta) {
         // a failed type-identity assertion inside cast_unchecked surfaces as a panic
         for (what, res) in [("interp_array", &r.batch), ("interp_array_into", &r.batch_into)] {
             if let Err(p) = res {
+                if variant >= 1 && !p.contains("cast_unchecked") && !p.contains("panicked") && p.contains("not in range") {
+                    continue; // the expected OutOfBounds error
+                }
                 let is_cast = p.contains("cast_unchecked between different types");
                 out.violate(
                     format!("{name}:{what}:{}", if is_cast { "cast" } else { "fail" }),
@@ -291,16 +308,27 @@ fn body(ctx: &Ctx) -> (Summary, Meta) {
                 out.violate(format!("{name}:vs-into"), "interp_array differs from interp_array_into".to_string(), case());
             }
         }
-        if r.singles.is_err() || r.general.is_err() {
+        if variant >= 1 {
+            // with an out-of-range element all paths must agree on the verdict (message included)
+            let v = |x: &Result<Vec<u64>, String>| x.as_ref().map(|_| ()).map_err(|e| e.clone());
+            if v(&r.batch) != v(&r.singles) || v(&r.batch) != v(&r.general) || v(&r.batch) != v(&r.batch_into) {
+                out.violate(
+                    format!("{name}:verdicts"),
+                    format!("fast path / general path / element-wise path disagree: interp_array {:?}, interp_array_into {:?}, dynamic-rank query {:?}, element-wise {:?}", v(&r.batch), v(&r.batch_into), v(&r.general), v(&r.singles)),
+                    case(),
+                );
+            }
+        } else if r.singles.is_err() || r.general.is_err() {
             out.violate(format!("{name}:reference"), format!("reference paths failed: {:?} / {:?}", r.singles.as_ref().err(), r.general.as_ref().err()), case());
         }
         if out.sample.is_none() {
             out.sample = Some(case());
         }
+      }
         out
     });
     let meta = Meta {
-        rule: "every instantiation of {data Ix1..Ix6, IxDyn} x {query Ix0, Ix1, Ix2 (m,1), Ix3 (1,m,1), IxDyn of runtime rank 1} x {owned, view, shared storage of data, axes and queries; in 2-D xs and ys (and x, y) get different storage kinds} x {f64, f32, i32, i64} x {Interp1D, Interp2D} is executed with Linear / Bilinear. The hook inside cast_unchecked asserts type_name / size / align equality on every executed cast and counts them: 2 (Interp1D) / 3 (Interp2D) casts iff the static query type is Ix1, 0 otherwise, for interp_array and interp_array_into alike; outputs of the fast path, of element-wise interp and of the general path (dynamic rank-1 query) are bit-identical. Non-trivial = instantiation whose static query type is Ix1 (the cast is executed).".into(),
+        rule: "every instantiation of {data Ix1..Ix6, IxDyn} x {query Ix0, Ix1, Ix2 (m,1), Ix3 (1,m,1), IxDyn of runtime rank 1} x {owned, view, shared storage of data, axes and queries; in 2-D xs and ys (and x, y) get different storage kinds} x {f64, f32, i32, i64} x {Interp1D, Interp2D} is executed with Linear / Bilinear. The hook inside cast_unchecked asserts type_name / size / align equality on every executed cast and counts them: 2 (Interp1D) / 3 (Interp2D) casts iff the static query type is Ix1, 0 otherwise, for interp_array and interp_array_into alike; outputs of the fast path, of element-wise interp and of the general path (dynamic rank-1 query) are bit-identical. Each instantiation is run three times: all queries in range; one (not the last) element out of range; data with a zero-length last trailing axis plus an out-of-range element - the verdicts (Ok / the OutOfBounds message) of all paths must agree. Non-trivial = instantiation whose static query type is Ix1 (the cast is executed).".into(),
         bounds: format!("{} instantiations (the whole finite table)", TABLE.len()),
         assumptions: vec!["type_name equality is a monitor for type identity, not a UB detector".into()],
         extra: vec![],
